@@ -169,6 +169,203 @@ def _occurs(term, consts):
     return found
 
 
+def _free_real_consts(term, limit=3):
+    out, seen, stack = [], set(), [term]
+    while stack:
+        x = stack.pop()
+        i = x.get_id()
+        if i in seen:
+            continue
+        seen.add(i)
+        if z3.is_quantifier(x):
+            stack.append(x.body())
+            continue
+        if z3.is_const(x) and x.decl().kind() == z3.Z3_OP_UNINTERPRETED and x.sort() == z3.RealSort() \
+                and x.decl().name() not in ("pi", "INF") and "!" not in x.decl().name():
+            out.append(x)
+        stack.extend(x.children())
+    return out[:limit]
+
+
+class _NoEval(Exception):
+    pass
+
+
+def numeric_eval(t, env):
+    """value of a ground z3 term under the STANDARD interpretation of exp / log / sqrt / recip / sin / cos / tanh / Phi / erf
+    / pow and pi (mpmath, 40 digits); raises _NoEval for anything else (uninterpreted symbols of the contract)"""
+    import mpmath
+    mpmath.mp.dps = 40
+    cache = {}
+
+    def ev(x):
+        i = x.get_id()
+        if i in cache:
+            return cache[i]
+        r = ev1(x)
+        cache[i] = r
+        return r
+
+    def ev1(x):
+        if z3.is_int_value(x):
+            return mpmath.mpf(x.as_long())
+        if z3.is_rational_value(x):
+            f = x.as_fraction()
+            return mpmath.mpf(f.numerator) / mpmath.mpf(f.denominator)
+        if z3.is_true(x):
+            return True
+        if z3.is_false(x):
+            return False
+        if not z3.is_app(x):
+            raise _NoEval(str(x)[:40])
+        k = x.decl().kind()
+        nm = x.decl().name()
+        ch = x.children()
+        if k == z3.Z3_OP_UNINTERPRETED:
+            if not ch:
+                if nm in env:
+                    return env[nm]
+                if nm == "pi":
+                    return mpmath.pi
+                if nm == "INF":
+                    return mpmath.mpf(10) ** 300
+                # a symbol the obligation itself does not constrain through `env`: any fixed value will do, as long as the
+                # whole path condition evaluates to true with it
+                if x.sort() == z3.IntSort():
+                    return mpmath.mpf(env.get("__default_int__", 2))
+                if x.sort() == z3.RealSort():
+                    return mpmath.mpf(env.get("__default_real__", "0.37"))
+                raise _NoEval(nm)
+            a = [ev(c) for c in ch]
+            table = {"exp": mpmath.exp, "log": mpmath.log, "sqrt": mpmath.sqrt, "sin": mpmath.sin, "cos": mpmath.cos, "tanh": mpmath.tanh,
+                     "erf": mpmath.erf, "recip": lambda v: 1 / v, "Phi": lambda v: mpmath.ncdf(v), "pow": lambda u, v: mpmath.power(u, v)}
+            if nm in table:
+                v = table[nm](*a)
+                if isinstance(v, mpmath.mpc):
+                    raise _NoEval("complex value")
+                return v
+            raise _NoEval(nm)
+        a = None
+        if k == z3.Z3_OP_ITE:
+            return ev(ch[1]) if ev(ch[0]) else ev(ch[2])
+        if k == z3.Z3_OP_AND:
+            return all(ev(c) for c in ch)
+        if k == z3.Z3_OP_OR:
+            return any(ev(c) for c in ch)
+        if k == z3.Z3_OP_NOT:
+            return not ev(ch[0])
+        if k == z3.Z3_OP_IMPLIES:
+            return (not ev(ch[0])) or ev(ch[1])
+        a = [ev(c) for c in ch]
+        if k == z3.Z3_OP_ADD:
+            return sum(a[1:], a[0])
+        if k == z3.Z3_OP_MUL:
+            r = a[0]
+            for v in a[1:]:
+                r = r * v
+            return r
+        if k == z3.Z3_OP_SUB:
+            r = a[0]
+            for v in a[1:]:
+                r = r - v
+            return r
+        if k == z3.Z3_OP_UMINUS:
+            return -a[0]
+        if k == z3.Z3_OP_DIV:
+            if a[1] == 0:
+                raise _NoEval("division by zero")
+            return a[0] / a[1]
+        if k == z3.Z3_OP_POWER:
+            return mpmath.power(a[0], a[1])
+        if k == z3.Z3_OP_TO_REAL:
+            return a[0]
+        tol = mpmath.mpf(10) ** -25
+        if k == z3.Z3_OP_EQ:
+            if isinstance(a[0], bool):
+                return a[0] == a[1]
+            return abs(a[0] - a[1]) <= tol * max(1, abs(a[0]), abs(a[1]))
+        if k == z3.Z3_OP_DISTINCT:
+            return abs(a[0] - a[1]) > tol * max(1, abs(a[0]), abs(a[1]))
+        if k == z3.Z3_OP_LE:
+            return a[0] <= a[1]
+        if k == z3.Z3_OP_LT:
+            return a[0] < a[1]
+        if k == z3.Z3_OP_GE:
+            return a[0] >= a[1]
+        if k == z3.Z3_OP_GT:
+            return a[0] > a[1]
+        raise _NoEval(nm)
+
+    return ev(t)
+
+
+def refute_numerically(pc, formula, symbols):
+    """sample the (few) real inputs and evaluate the whole VC numerically under the standard interpretation; a sample that
+    satisfies every evaluable path-condition conjunct and falsifies the obligation by a margin >> rounding is a counterexample.
+    Path-condition conjuncts that mention contract-level uninterpreted symbols cannot be evaluated: then no verdict."""
+    import mpmath
+    cs = _free_real_consts(formula, limit=4)
+    if not cs:
+        return None
+    pool = ["-2.5", "-1.5", "-0.5", "0.1", "0.7", "1.3", "2.5"]
+    big_tol = mpmath.mpf(10) ** -9
+    for combo in itertools.islice(itertools.product(pool, repeat=len(cs)), 400):
+        env = {c.decl().name(): mpmath.mpf(v) for c, v in zip(cs, combo)}
+        try:
+            if not all(numeric_eval(p, env) for p in pc):
+                continue
+            f = formula
+            ok = numeric_eval(f, env)
+        except (_NoEval, ZeroDivisionError, ValueError, OverflowError):
+            continue
+        if ok is False:
+            # insist on a clear margin for equalities
+            if z3.is_eq(f):
+                try:
+                    l, r = numeric_eval(f.children()[0], env), numeric_eval(f.children()[1], env)
+                    if not isinstance(l, bool) and abs(l - r) <= big_tol * max(1, abs(l), abs(r)):
+                        continue
+                except _NoEval:
+                    continue
+            md = {n: float(v) for n, v in env.items()}
+            md["__sampled__"] = dict(md)
+            return md
+    return None
+
+
+def refute_by_sampling(pc, formula, symbols, model_value, budget_s=30):
+    """no size symbols: try a few concrete values for the (few) real inputs the obligation mentions; the remaining
+    query (uninterpreted exp/log/sqrt constrained by their ground axioms) is quantifier-free and usually easy"""
+    t0 = time.time()
+    whole = z3.And(*pc, z3.Not(formula))
+    cs = _free_real_consts(formula)
+    if not cs:
+        return None
+    pool = ["-2", "-1.5", "-0.5", "0.1", "0.7", "2.5"]
+    for combo in itertools.product(pool, repeat=len(cs)):
+        if time.time() - t0 > budget_s:
+            break
+        sub = [(c, z3.RealVal(v)) for c, v in zip(cs, combo)]
+        s = z3.Solver()
+        s.set("timeout", 4000)
+        s.add(z3.simplify(z3.substitute(whole, *sub)))
+        if s.check() == z3.sat:
+            m = s.model()
+            md = {}
+            for n, t in symbols.items():
+                if n.startswith("__"):
+                    continue
+                try:
+                    md[n] = model_value(m, z3.substitute(t, *sub))
+                except Exception as e:  # pragma: no cover
+                    md[n] = f"<{e}>"
+            for c, v in zip(cs, combo):
+                md[c.decl().name()] = float(v)
+            md["__sampled__"] = {c.decl().name(): float(v) for c, v in zip(cs, combo)}
+            return md
+    return None
+
+
 def refute_small(pc, formula, sizes, symbols, model_value, budget_s=60, values=(1, 2, 3), aux=None):
     t0 = time.time()
     names = list(sizes)
